@@ -24,7 +24,7 @@ func init() {
 		Rule: "family row-words: every word over {object row, separator, zero-cell row, short row} of length <=7 (thorough <=8), i.e. every path through the comma state machine; " +
 			"family skipable: every assignment of {unset,true,false,non-bool} to column 0 and 2 columns x every pair of cells from {nil, empty string, x, 0, nested empty cell}; " +
 			"family items: 16 item kinds (scalars, slices, maps, structs with/without exported fields, Marshaler, TextMarshaler, nested cell, unencodable chan) x position; " +
-			"family headers: every pair/triple of header texts from a 9-pool incl. duplicate and empty, x missing/too-few/enough/wider; non-trivial = word contains a separator or anomalous row, a skipable or non-default setting, a non-string item, or a refused configuration",
+			"family headers: every pair/triple of header texts from a 15-pool incl. duplicate, empty, control characters (ESC, NUL, DEL, VT, BS), U+2028 and a non-printable astral rune, x missing/too-few/enough/wider; non-trivial = word contains a separator or anomalous row, a skipable or non-default setting, a non-string item, or a refused configuration",
 		Assumptions: []string{"key order inside an object is not asserted (the statement speaks of a mapping)", "header texts are valid UTF-8", "encoding/json defines 'the JSON encoding of an item'"},
 		QuickBudget: 90 * time.Second, ThoroughBudget: 15 * time.Minute,
 		Run: runC07,
@@ -375,7 +375,7 @@ func runC07(x *X) {
 		{hiddenStringer{"hid"}, "struct(no exported)+String"}, {hiddenStringer{""}, "struct(no exported)+empty String"},
 		{marshalerItem{"m"}, "Marshaler"}, {textMarshalerItem{"t"}, "TextMarshaler"},
 		{tabular.NewCell("inner"), "nested Cell"}, {tabular.NewCell(tabular.NewCell(5)), "nested Cell depth 2"},
-		{make(chan int), "chan (unencodable)"}, {struct{}{}, "struct{}"}, {[]interface{}{}, "empty slice"}, {"é\"\\\n<&>", "hostile string"},
+		{make(chan int), "chan (unencodable)"}, {struct{}{}, "struct{}"}, {[]interface{}{}, "empty slice"}, {"é\"\\\n<&>", "hostile string"}, {"\x1b\x00\x7f\v\u2028\U000E0001", "control-character string"},
 	}
 	x.Explore("items", ExploreOpts{ShardDepth: 2, Bound: fmt.Sprintf("%d item kinds x %d item kinds (two columns) x skipable default on/off", len(items), len(items))}, func(c *Chooser) {
 		a, b := items[c.Choose(len(items))], items[c.Choose(len(items))]
@@ -391,8 +391,8 @@ func runC07(x *X) {
 	})
 
 	// (d) headers
-	hpool := []string{"a", `"`, `\`, "\n", "<&>", "é", " ", "a", ""}
-	x.Explore("headers", ExploreOpts{ShardDepth: 2, Bound: "header none / 0..3 texts from a 9-pool (incl. a duplicate and an empty one) x rows of 0..3 cells"}, func(c *Chooser) {
+	hpool := []string{"a", `"`, `\`, "\n", "<&>", "é", " ", "a", "", "\x1b[1m", "\x00", "\x7f", "\u2028", "\U000E0001", "\t\v\b"}
+	x.Explore("headers", ExploreOpts{ShardDepth: 2, Bound: "header none / 0..3 texts from a 15-pool (incl. a duplicate, an empty one, control and non-printable characters) x rows of 0..3 cells"}, func(c *Chooser) {
 		t := &c07Table{skip: map[int]interface{}{}}
 		nh := c.Choose(5) // 0 = none, k = k-1 cells
 		if nh > 0 {
